@@ -126,7 +126,7 @@ class Prover:
         if fv is not None:
             self.report.functions[c.relpath + '::' + c.qualname]['obligations'] = \
                 self.report.functions[c.relpath + '::' + c.qualname].get('obligations', 0) + sum(1 for n in self.meta if f'/{label}/' in n)
-        if not any_live:
+        if not any_live and not any(out[0] == 'unsupported' for _, out in paths):
             self.report.error(f'{label}: contract generated no obligation (vacuous)')
 
     def _add(self, name, c, pc, goal, st, meta):
@@ -182,7 +182,7 @@ class Prover:
         except Exception:
             ins = {}
         s = z3.Solver()
-        s.set('timeout', 20000)
+        s.set('timeout', 5000)
         for h in m['hyps']:
             s.add(h)
         s.add(z3.Not(m['goal']))
